@@ -173,7 +173,8 @@ def run_glob_case(order, grepo):
     from textx import metamodel_from_str, register_language, clear_language_registrations
     from textx.scoping.providers import PlainNameImportURI
 
-    d = os.path.join(core.rundir(), "c17glob-%d" % os.getpid())
+    # the directory of the importing model carries glob metacharacters: only the import text is a pattern, not the model's own location
+    d = os.path.join(core.rundir(), "c17glob[v2]-%d" % os.getpid())
     os.makedirs(os.path.join(d, "lib"), exist_ok=True)
     for fn in GLOB_FILES:
         with open(os.path.join(d, "lib", fn), "w") as f:
@@ -188,7 +189,8 @@ def run_glob_case(order, grepo):
 
     def fake_glob(pattern, **kw):
         got = real_glob(pattern, **kw)
-        assert sorted(os.path.basename(x) for x in got) == sorted(GLOB_FILES), got
+        if sorted(os.path.basename(x) for x in got) != sorted(GLOB_FILES):
+            return got  # the real answer (nothing to permute)
         return [os.path.join(os.path.dirname(got[0]), fn) for fn in listing]
     clear_language_registrations()
     register_language("c17types", pattern="*.type", metamodel=types_mm)
